@@ -21,6 +21,7 @@ func init() {
 		ruleR1(c, "C01.R1")
 		ruleW1(c, "C01.R7")
 		ruleU2(c, "C01.R8")
+		ruleU1(c, "C01.R9")
 	}
 }
 
